@@ -71,6 +71,9 @@ class Clock:
         return float(self.t)
 
 
+AUD_AS_TEXT = [False]      # the provider's get_audiences hook may return the single audience as plain text instead of a list
+
+
 def build(alg, require_nonce, extra_claims):
     store = S.Store()
     store.used_nonces = set()
@@ -85,6 +88,9 @@ def build(alg, require_nonce, extra_claims):
         return d
 
     class OIDCCode(OpenIDCode):
+        def get_audiences(self, request):
+            return request.client.get_client_id() if AUD_AS_TEXT[0] else super().get_audiences(request)
+
         def exists_nonce(self, nonce, request):
             return (request.client_id, nonce) in store.used_nonces
 
@@ -95,6 +101,9 @@ def build(alg, require_nonce, extra_claims):
             return user_info(user, scope)
 
     class Mixin:
+        def get_audiences(self, request):
+            return request.client.get_client_id() if AUD_AS_TEXT[0] else super().get_audiences(request)
+
         def exists_nonce(self, nonce, request):
             return (request.client_id, nonce) in store.used_nonces
 
@@ -237,7 +246,15 @@ def parse_real(idt, alg, pub, client, iss, nonce, at):
         return False
 
 
-def check_combo(ctx, rt, alg, nonce, extra):
+def check_combo(ctx, rt, alg, nonce, extra, aud_as_text=False):
+    AUD_AS_TEXT[0] = aud_as_text
+    try:
+        _check_combo(ctx, rt, alg, nonce, extra, aud_as_text)
+    finally:
+        AUD_AS_TEXT[0] = False
+
+
+def _check_combo(ctx, rt, alg, nonce, extra, aud_as_text):
     clock = Clock()
     real = time.time
     time.time = clock
@@ -245,8 +262,8 @@ def check_combo(ctx, rt, alg, nonce, extra):
         got, resp = issue(ctx, rt, alg, "rp1", nonce, extra, clock)
     finally:
         time.time = real
-    case = {"rt": rt, "alg": alg, "nonce": nonce, "extra": extra}
-    ctx.case(case, json.dumps(case, sort_keys=True), "combo:%s:%s" % (rt, alg[:2]))
+    case = {"rt": rt, "alg": alg, "nonce": nonce, "extra": extra, "aud_as_text": aud_as_text}
+    ctx.case(case, json.dumps(case, sort_keys=True), "combo:%s:%s%s" % (rt, alg[:2], ":aud-text" if aud_as_text else ""))
     if got is None:
         ctx.count("not-issued:%s" % resp.get("error"))
         if nonce or rt == "code":
@@ -261,7 +278,7 @@ def check_combo(ctx, rt, alg, nonce, extra):
     ui.update(extra)
     mp = ctx.model.call("idtoken_payload", {"rt": rt, "iss": ISS, "client": "rp1", "now": now, "exp_in": 3600, "auth_time": now if rt in ("code", "code token") else None,
                                             "nonce": nonce, "code": code or "", "access_token": at or "", "alg": alg, "user_info": ui})
-    ctx.compare("idtoken_payload", case, payload, mp)
+    ctx.compare("idtoken_payload", case, dict(payload, aud=[payload["aud"]]) if aud_as_text and isinstance(payload.get("aud"), str) else payload, mp)
     if hdr.get("alg") != alg:
         ctx.violation("C13:alg", "the ID Token header carries a different algorithm", case)
     # ---- the property's own expectations on the issued token
@@ -279,6 +296,7 @@ def check_combo(ctx, rt, alg, nonce, extra):
     variants = [("match", {}), ("issuer", {"iss": ISS + "/"}), ("issuer-case", {"iss": ISS.upper()}),
                 ("nonce", {"nonce": (nonce or "") + "x"}), ("nonce-prefix", {"nonce": (nonce or "n")[:-1] or "q"}),
                 ("client", {"client": "rp2"}), ("client-case", {"client": "RP1"}),
+                ("client-contained", {"client": "rp"}), ("client-suffix", {"client": "p1"}), ("client-containing", {"client": "rp10"}), ("client-char", {"client": "r"}),
                 ("access-token", {"at": (at or "") + "x"}), ("code", {"code": (code or "") + "x"}),
                 ("expired", {"now": now + 3601}), ("expired-leeway-ok", {"now": now + 3601, "lw": 5}), ("at-exp", {"now": now + 3600}),
                 ("future-iat", {"now": now - 10}), ("future-iat-leeway", {"now": now - 10, "lw": 10}), ("key", {"key": other_pub})]
@@ -373,6 +391,9 @@ def run(ctx):
                 check_combo(ctx, rt, alg, nonce, extras[(len(rt) + len(alg)) % 2] if ctx.tier == "quick" else extras[0])
                 if ctx.tier != "quick":
                     check_combo(ctx, rt, alg, nonce, extras[1])
+    for i, rt in enumerate(RTS):
+        for alg in (ALGS if ctx.tier != "quick" else [ALGS[i % len(ALGS)], ALGS[(i + 5) % len(ALGS)]]):
+            check_combo(ctx, rt, alg, "n-0Aa", {}, aud_as_text=True)
     nonce_sequences(ctx, 60 if ctx.tier == "quick" else 600)
 
 
@@ -381,4 +402,4 @@ def run_case(ctx, case):
     if "steps" in case:
         nonce_sequences(ctx, 0)
         return
-    check_combo(ctx, case["rt"], case["alg"], case["nonce"], case["extra"])
+    check_combo(ctx, case["rt"], case["alg"], case["nonce"], case["extra"], case.get("aud_as_text", False))
